@@ -996,6 +996,7 @@ class Explorer(BaseExplorer):
         self.dumped = []
         self.unreproduced = []
         self.max_depth = None
+        self.path_limit_s = 90.0  # wall-clock guard per path: a path that takes longer is treated like one exceeding the decision limit
         self._reset([], None, [])
 
     # ---- per-path state
@@ -1010,6 +1011,7 @@ class Explorer(BaseExplorer):
         self.decls = {}  # name -> z3 const
         self.observed = {}
         self.frontier_hit = False
+        self._path_t0 = time.time()
         self._ps = None
         self._ps_n = 0
 
@@ -1144,7 +1146,7 @@ class Explorer(BaseExplorer):
             if self.max_depth is not None and i >= self.max_depth:
                 self.frontier_hit = True
                 raise Abort()
-            if i >= self.decision_limit:
+            if i >= self.decision_limit or (self.path_limit_s and time.time() - self._path_t0 > self.path_limit_s):
                 # The path does not end symbolically (e.g. a loop whose trip count depends on symbolic data).  Its current model
                 # is still a concrete input: try it on plain values; a reproduced violation is reported, otherwise inconclusive.
                 vals = self.values_of(self.model)
@@ -1285,7 +1287,12 @@ class Explorer(BaseExplorer):
         if res.get("aborted"):
             self.stats["validation_skipped"] += 1
             return
-        ok = not res.get("violated")
+        if res.get("violated"):
+            # The plain-float run of this path's model violates an assertion although the symbolic run (exact arithmetic) did not:
+            # a concrete failing input of the real code (typically a float-rounding effect).  It is a replayed counterexample.
+            self.stats["validation_violation"] = self.stats.get("validation_violation", 0) + 1
+            raise Violation((res.get("labels") or ["violated on plain floats"])[0] + " [found by the plain-float replay of a path model]", vals, res)
+        ok = True
         obs = res.get("observed", {})
         for name, term in self.observed.items():
             if name not in obs:
@@ -1362,8 +1369,11 @@ class Explorer(BaseExplorer):
                     self.stats["validated"] + self.stats["validation_mismatch"] < self.max_validate:
                 try:
                     self.validate_path()
-                except (Abort, Violation):
+                except Abort:
                     pass
+                except Violation as v:
+                    self.violation = v
+                    return "violation", [(p, nt) for (p, _c, _m, nt) in stack]
             if completed and len(self.samples) < 3 and isinstance(self.model, z3.ModelRef):
                 try:
                     self.samples.append({"path_decisions": len(self.decisions),
@@ -1382,7 +1392,11 @@ class Explorer(BaseExplorer):
         if self.incremental:
             inc = self._path_solver()
         new = []
+        t_flip = time.time()
         for i in range(n1 - 1, n0 - 1, -1):
+            if self.path_limit_s and time.time() - t_flip > 3 * self.path_limit_s:
+                self.inconclusive.append("flips-skipped")  # pathological path: its remaining alternatives are not explored (never a pass)
+                break
             c = self.conds[i]
             negc = c.arg(0) if z3.is_not(c) else z3.Not(c)
             note = self.notes[i]
